@@ -58,14 +58,29 @@ def install_threshold_spies():
     the symbolic kernel harnesses)"""
     import cell_type_mapper.diff_exp.p_value_mask as PV
 
+    import inspect
+
     def spy(mod, name):
-        real = getattr(mod, name)
+        real = getattr(mod, name, None)
+        if real is None:
+            return            # refactored away: nothing to observe here
+        try:
+            sig = inspect.signature(real)
+        except (TypeError, ValueError):
+            sig = None
 
         def f(*a, **k):
-            SEEN['calls'].append((name, {t: k[t] for t in THRESHOLDS
-                                         if t in k}))
+            kw = dict(k)
+            if sig is not None:
+                try:
+                    kw = dict(sig.bind(*a, **k).arguments)
+                except TypeError:
+                    pass
+            SEEN['calls'].append((name, {t: kw[t] for t in THRESHOLDS
+                                         if t in kw}))
             return real(*a, **k)
         patch(mod, name, f)
+        SEEN['installed'] = SEEN.get('installed', 0) + 1
     spy(MK, 'score_differential_genes')
     spy(PV, 'penetrance_parameter_distance')
     spy(PV, 'diffexp_p_values_from_stats')
@@ -396,6 +411,8 @@ def check_thresholds(ctx, res):
     """the criteria kernels are called with the caller's thresholds"""
     th = res['thresholds']
     calls = list(SEEN['calls'])
+    if not SEEN.get('installed'):
+        return
     ctx.check(len(calls) > 0, 'the criteria kernels were called')
     bad = sorted({(name, t) for name, kw in calls for t, v in kw.items()
                   if v != th[t]})
